@@ -1,6 +1,10 @@
-(* C20 — property theorems only.  Each is closed by [exact]; see C20/Proofs.v. *)
+(* C20 — property theorems only.  Each is closed by [exact]; see C20/Final.v,
+   C20/Dict.v, C20/Keys.v, C20/Proofs.v.
+   [dwrite_report] is the transcription of the code's algorithm (two
+   dictionaries keyed by title chains, check_tree / _write_rec walking them);
+   [write] is the tree-based model; they are equal (third theorem). *)
 From Coq Require Import String List ZArith.
-From VV Require Import Lib.Base C19.Model C19.Proofs C20.Model C20.Proofs.
+From VV Require Import Lib.Base C19.Model C19.Proofs C20.Model C20.Proofs C20.Dict C20.Keys C20.Final.
 Import ListNotations.
 
 (* for every report tree: either write is refused before the first file write,
@@ -10,9 +14,9 @@ Import ListNotations.
    written page of the sub-section, every referenced figure is written *)
 Theorem C20_write_spec :
   forall r : report,
-  (snd (write r) <> None -> fst (write r) = []) /\
-  (snd (write r) = None ->
-   let t := fst (write r) in
+  (snd (dwrite_report r) <> None -> fst (dwrite_report r) = []) /\
+  (snd (dwrite_report r) = None ->
+   let t := fst (dwrite_report r) in
    trace_pages t = map page_of (secs [] r) /\
    (forall k n, In (k, n) (secs [] r) ->
       page_doc k = match k with [] => ["index"%string] | _ => k end /\ (k = [] -> n = r)) /\
@@ -24,7 +28,7 @@ Theorem C20_write_spec :
       resolve (p_doc (page_of (k, n))) (toc_entry (k ++ [title_of c]))
       = p_doc (page_of (k ++ [title_of c], c))) /\
    (forall p i, In p (trace_pages t) -> In i (p_images p) -> In (WFig i) t)).
-Proof. exact write_spec. Qed.
+Proof. exact code_write_spec. Qed.
 Print Assumptions C20_write_spec.
 
 (* the subtree[-2:] rule: at every depth the entry written on the page of a
@@ -36,6 +40,38 @@ Theorem C20_toc_entries_resolve :
   resolve (page_doc k) (toc_entry (k ++ [t])) = page_doc (k ++ [t]).
 Proof. exact toc_entries_resolve. Qed.
 Print Assumptions C20_toc_entries_resolve.
+
+(* the dictionary-based algorithm of the code and the tree-based model are the
+   same function, for all reports (accepted or not) *)
+Theorem C20_dict_write_is_tree_write :
+  forall r : report, dwrite_report r = write r.
+Proof. exact dict_write_is_tree_write. Qed.
+Print Assumptions C20_dict_write_is_tree_write.
+
+(* check_tree (with the depth limit of format_report) refuses exactly the
+   trees that are deeper than five levels, have duplicate sibling titles, a
+   title that is not a file name, a top-level "index", or a file that would
+   have to be a directory; and it refuses before the first write *)
+Theorem C20_check_tree_rejects_exactly :
+  forall r : report,
+  (snd (dwrite_report r) <> None <->
+   ~ ((forall k n, at_key r k n -> length k <= 4) /\
+      (forall k n, at_key r k n -> NoDup (map title_of (children_of n))) /\
+      (forall k n, at_key r k n -> Forall good_name k) /\
+      ~ In "index"%string (map title_of (children_of r)) /\
+      prefix_free (files r))) /\
+  (snd (dwrite_report r) <> None -> fst (dwrite_report r) = []).
+Proof. exact code_rejects_exactly. Qed.
+Print Assumptions C20_check_tree_rejects_exactly.
+
+(* no written file lies below another written file *)
+Theorem C20_no_file_is_a_directory :
+  forall r : report,
+  snd (dwrite_report r) = None ->
+  forall f f2 rest, In f (map wr_path (fst (dwrite_report r))) ->
+                    In f2 (map wr_path (fst (dwrite_report r))) -> f2 = f ++ rest -> rest = [].
+Proof. exact code_no_file_is_a_directory. Qed.
+Print Assumptions C20_no_file_is_a_directory.
 
 (* sections of a report that passes check_tree have pairwise different keys *)
 Theorem C20_sections_have_distinct_keys :
